@@ -1,7 +1,7 @@
 from contracts.histories import ApiHistories, KfRemoveThroughParent
-from contracts.concat import ConcatHistories, KfRemoveThroughWorkspace
+from contracts.concat import ConcatHistories
 from contracts.removal import CONTRACTS as _R
-CONTRACTS = list(_R) + [ApiHistories, KfRemoveThroughParent, KfRemoveThroughWorkspace, ConcatHistories]
+CONTRACTS = list(_R) + [ApiHistories, KfRemoveThroughParent, ConcatHistories]
 
 MANIFEST = {
     "category": "proof",
